@@ -65,15 +65,8 @@ Proof.
 Qed.
 
 (* ---- conformance of types (TestConformance), structural --------------------------------------- *)
-Section All2.
-  Context {A B : Type} (f : A -> B -> bool).
-  Fixpoint all2 (l1 : list A) (l2 : list B) : bool :=
-    match l1, l2 with
-    | [], [] => true
-    | x :: r1, y :: r2 => f x y && all2 r1 r2
-    | _, _ => false
-    end.
-End All2.
+(* [ty_all2] / [ty_conf] are defined in Cty/Ops.v (Equals consults conformance, ValueRange.Includes) *)
+Notation all2 := ty_all2.
 
 Lemma all2_Forall2 {A B} (f : A -> B -> bool) l1 l2 :
   all2 f l1 l2 = true <-> Forall2 (fun x y => f x y = true) l1 l2.
@@ -85,17 +78,7 @@ Proof.
   - inversion H; subst. apply andb_true_iff. split; [assumption|apply IH; assumption].
 Qed.
 
-Fixpoint conf (have want : ty) {struct have} : bool :=
-  match want with
-  | TDyn => true
-  | _ =>
-      match have, want with
-      | TList a, TList b | TSet a, TSet b | TMap a, TMap b => conf a b
-      | TTuple xs, TTuple ys => all2 conf xs ys
-      | TObj xs, TObj ys => all2 (fun p q => str_eqb (fst p) (fst q) && conf (snd p) (snd q)) xs ys
-      | _, _ => ty_eqb have want
-      end
-  end.
+Notation conf := ty_conf.
 
 Lemma conf_refl : forall t, conf t t = true.
 Proof.
